@@ -1,0 +1,53 @@
+//go:build verif
+
+// Contracts for the deductive verifier under /verif (govc). Comment-only file: it adds no code and is
+// compiled only with the build tag "verif".
+
+package jschema
+
+// ---- StringSet: insertion-ordered set (C19, C05) ------------------------------------------------------
+
+//@ ghostfield StringSet.$pos (Array Str Int)
+
+//@ pred wfStringSet(m *StringSet) := m != nil
+//@     && (m.data == nil ==> len(m.order) == 0)
+//@     && len(m.data) == len(m.order)
+//@     && (forall k string :: {m.$pos[k]} k in m.data ==> 0 <= m.$pos[k] && m.$pos[k] < len(m.order) && m.order[m.$pos[k]] == k)
+//@     && (forall p :: {elems(m.order)[p]} m.order.off <= p && p < m.order.off + len(m.order) ==> elems(m.order)[p] in m.data && m.$pos[elems(m.order)[p]] == p - m.order.off)
+
+//@ func (*StringSet).has
+//@   property C19 C05
+//@   requires m != nil
+//@   ensures result == (v in m.data)
+//@   no_panic
+
+//@ func (*StringSet).Has
+//@   property C19 C05
+//@   requires m != nil
+//@   ensures result == (v in m.data)
+//@   no_panic
+
+//@ func (*StringSet).Len
+//@   property C19 C05
+//@   requires wfStringSet(m)
+//@   ensures result == len(m.order)
+//@   no_panic
+
+//@ func (*StringSet).Data
+//@   property C19 C05
+//@   requires wfStringSet(m)
+//@   ensures result == m.order
+//@   no_panic
+
+//@ func (*StringSet).Add
+//@   property C19 C05
+//@   requires wfStringSet(m)
+//@   modifies m.data, m.order, m.$pos, mapof(m.data), elems(m.order)
+//@   ensures wfStringSet(m)
+//@   ensures v in m.data
+//@   ensures forall k2 string :: k2 != v ==> ((k2 in m.data) == old(k2 in m.data))
+//@   ensures old(v in m.data) ==> len(m.order) == old(len(m.order))
+//@   ensures !old(v in m.data) ==> len(m.order) == old(len(m.order)) + 1 && m.order[len(m.order)-1] == v
+//@   ensures forall i :: 0 <= i && i < old(len(m.order)) ==> m.order[i] == old(m.order[i])
+//@   no_panic
+//@   at return set m.$pos = old(v in m.data) ? m.$pos : store(m.$pos, v, old(len(m.order)))
